@@ -52,8 +52,10 @@ $(B)/plain/%: $(B)/plain/%.o $(PLAIN_SIM)
 	$(CXX) -no-pie $^ -o $@
 $(B)/asan/%: $(B)/asan/%.o $(ASAN_SIM)
 	$(CXX) -fsanitize=address,undefined $^ -o $@
+# the simulator objects come FIRST: for template instantiations shared with the (instrumented) check the linker keeps
+# the first COMDAT copy, and the scheduler / detector must never run instrumented code (re-entrancy)
 $(B)/trace/%: $(B)/trace/%.o $(TRACE_SIM)
-	$(CXX) -no-pie $^ -o $@
+	$(CXX) -no-pie $(TRACE_SIM) $< -o $@
 
 $(B)/plain $(B)/asan $(B)/trace:
 	mkdir -p $@
